@@ -1389,7 +1389,8 @@ class TOTP:
 
         # parse query params
         params = dict(label=label)
-        for k, v in parse_qsl(result.query):
+        # NOTE: keeping blank values -- "secret=X&secret=" is a duplicate parameter as well
+        for k, v in parse_qsl(result.query, keep_blank_values=True):
             if k in params:
                 raise cls._uri_parse_error(f"duplicate parameter ({k!r})")
             params[k] = v
